@@ -19,7 +19,7 @@ from elementpath.namespaces import XSLT_XQUERY_SERIALIZATION_NAMESPACE
 from elementpath.datatypes import AnyAtomicType, AnyURI, AbstractDateTime, \
     AbstractBinary, UntypedAtomic, QName
 from elementpath.xpath_nodes import XPathNode, ElementNode, AttributeNode, DocumentNode, \
-    NamespaceNode, TextNode, CommentNode
+    NamespaceNode, TextNode, CommentNode, ProcessingInstructionNode
 from elementpath.xpath_nodes import EtreeElementNode
 from elementpath.xpath_tokens import XPathToken, XPathMap, XPathArray
 from elementpath.protocols import EtreeElementProtocol, LxmlElementProtocol
@@ -303,6 +303,8 @@ def serialize_to_xml(elements: Iterable[Any],
         if isinstance(item, ElementNode):
             assert isinstance(item, EtreeElementNode)
             elem = item.value
+        elif isinstance(item, (CommentNode, ProcessingInstructionNode)):
+            elem = item.value  # e.g. a child of a document node
         elif isinstance(item, (AttributeNode, NamespaceNode)):
             raise xpath_error('SENR0001', token=token)
         elif isinstance(item, TextNode):
